@@ -1,10 +1,11 @@
 (* C08 - Editing a specific node changes exactly that node's span and nothing else.
    FULL at the level of the node list that holds the target (top level, a section view through
    C11, or the nested Wikicode the strong search found): node and index targets.
-   The composition through enclosing nodes (the page's text changes exactly by that list's text,
-   because every child Wikicode is rendered verbatim once) and string targets are validated by the
-   oracle on parsed trees, not proved. *)
-From MW Require Import PyBase PyList SmartList WikiEdit EditSpan.
+   The composition through enclosing nodes is proved too (coq/Context.v): wherever a Wikicode sits below the
+   page - in any place __children__ yields, at any depth - the page's text is pre ++ text(it) ++ post with pre
+   and post independent of it, so replacing its contents changes exactly its span.  String targets are
+   validated by the oracle on parsed trees, not proved. *)
+From MW Require Import PyBase PyList SmartList WikiEdit EditSpan Nodes Strip Context.
 Local Open Scope Z_scope.
 
 Section C08.
@@ -44,6 +45,21 @@ Theorem C08_text_span : forall (B : Type) (f : A -> list B) P ns Q x,
 Proof. exact (@render_pieces A). Qed.
 End C08.
 
+(* nested targets: a Wikicode anywhere below the page (one-hole context K, built from the places
+   __children__ yields) is rendered verbatim, once, between a prefix and a suffix that do not depend on it *)
+Theorem C08_nested_edit_changes_only_its_span : forall K, code_hole K ->
+  exists pre post, forall old new,
+    str_code (K old) = pre ++ str_code old ++ post /\ str_code (K new) = pre ++ str_code new ++ post.
+Proof. exact nested_edit_span. Qed.
+
+(* ... and every Wikicode that navigation can reach in a node is such a place (the one exception, the
+   title of an unbracketed link, cannot come out of the parser and is never rendered) *)
+Theorem C08_every_child_is_a_place : forall n c, In c (children_of n) ->
+  (exists F, node_hole F /\ F c = n) \/ (exists u s, n = NExtLink u (Some c) false s).
+Proof. exact hole_covers_children. Qed.
+
+
+
 Print Assumptions C08_edit_node_target.
 Print Assumptions C08_insert_at_index.
 Print Assumptions C08_append.
@@ -54,3 +70,5 @@ Example C08_example :
   wc_list Z.eqb (fun l => l) [1; 2; 3] (WAfterNode 2 [8; 9]) = Ok [1; 2; 8; 9; 3] /\
   wc_list Z.eqb (fun l => l) [1; 2; 3] (WRemoveNode 7) = Exn ValueError.
 Proof. vm_compute. repeat split; reflexivity. Qed.
+Print Assumptions C08_nested_edit_changes_only_its_span.
+Print Assumptions C08_every_child_is_a_place.
